@@ -39,6 +39,7 @@ def extend_ext(ext):
         if isinstance(getattr(I, 'cur', None), dict) and 'sum_calls' in I.cur and isinstance(a, ArrRef): I.cur['sum_calls'].append((a, tz(r)))
         return r
     np_.sum = sum_
+    assigner_ext(ext)
 
 def assigner_contracts():
     def fit_res(I, F):
@@ -149,7 +150,110 @@ def u_reject():
         I.ob('reject[C17]:mismatched-cell-dimension-is-rejected', BoolVal(False), kind='post')
     return Unit('SparseKDE[mismatched-cell]', body, functions=[KD + '.__init__', KD + '._check_dimension'], on_raise=lambda I, st, r: r.kind == 'ValueError')
 
-UNITS = [lambda: u_fit(True, True), lambda: u_fit(False, False), lambda: u_fit(False, True), lambda: u_score(), lambda: u_reject()]
+
+# ------------------------------------------------------------------ the assignment loop: _NearestGridAssigner.fit / predict
+DIST = z3.Function('DIST', IntS, IntS, RealS)          # metric(descriptor t, grid point j)
+AI, AR = z3.ArraySort(IntS, IntS), z3.ArraySort(IntS, RealS)
+SUMSEL = z3.Function('SUMSEL', AI, AR, IntS, IntS, RealS)   # SUMSEL(L, w, k, j) = sum of w[t] over t < k with L[t] = j
+CNTSEL = z3.Function('CNTSEL', AI, IntS, IntS, IntS)        # CNTSEL(L, k, j)    = number of t < k with L[t] = j
+t_, j_ = Int('t'), Int('j')
+
+def sel_axioms():
+    L, L2 = z3.Consts('L!s L2!s', AI); w = z3.Const('w!s', AR); k, j = Int('k!s'), Int('j!s')
+    return [ForAll([L, w, j], SUMSEL(L, w, 0, j) == 0, patterns=[SUMSEL(L, w, 0, j)]),
+            ForAll([L, j], CNTSEL(L, 0, j) == 0, patterns=[CNTSEL(L, 0, j)]),
+            ForAll([L, w, k, j], Implies(k >= 0, SUMSEL(L, w, k + 1, j) == SUMSEL(L, w, k, j) + If(L[k] == j, w[k], RealVal(0))), patterns=[SUMSEL(L, w, k + 1, j)]),
+            ForAll([L, k, j], Implies(k >= 0, CNTSEL(L, k + 1, j) == CNTSEL(L, k, j) + If(L[k] == j, 1, 0)), patterns=[CNTSEL(L, k + 1, j)]),
+            # a sum over the first k entries depends only on the first k entries
+            ForAll([L, L2, w, k, j], Implies(ForAll([t_], Implies(And(0 <= t_, t_ < k), L[t_] == L2[t_])), SUMSEL(L, w, k, j) == SUMSEL(L2, w, k, j)), patterns=[z3.MultiPattern(SUMSEL(L, w, k, j), SUMSEL(L2, w, k, j))]),
+            ForAll([L, L2, k, j], Implies(ForAll([t_], Implies(And(0 <= t_, t_ < k), L[t_] == L2[t_])), CNTSEL(L, k, j) == CNTSEL(L2, k, j)), patterns=[z3.MultiPattern(CNTSEL(L, k, j), CNTSEL(L2, k, j))])]
+
+class SymDictOfLists:
+    """{i: [] for i in range(<symbolic n>)}: per-key member lists; appends are not tracked (nothing proved here depends on them), the final conversion loop is skipped"""
+    def _pyvc_getitem(self, I, b, ix): return skstubs.StubObj(kind='symlist', append=lambda I2, v: None)
+    def _pyvc_for(self, I, s, F): return None
+
+def assigner_ext(ext):
+    ext['dictcomp_sym'] = lambda I, e, g, it, F: SymDictOfLists()
+    np_ = ext['modules']['np']
+    pam = np_.argmin
+    def argmin_(I, a, axis=None, **kw):
+        A = I.A(a)
+        if A.ndim == 2 and axis is None and conc(A.shape[0]) == 1:
+            npstubs.used('np.argmin of a 1 x g array (first minimum)')
+            g = tz(A.shape[1])
+            I.ob('pre:np.argmin:non-empty', g >= 1, kind='pre')
+            r = I.fresh('argmin', IntS); j = Int('j!am')
+            I.assume(And(0 <= r, r < g, ForAll([j], Implies(And(0 <= j, j < g), A.elem(0, r) <= A.elem(0, j)), patterns=[A.elem(0, j)]),
+                         ForAll([j], Implies(And(0 <= j, j < r), A.elem(0, j) > A.elem(0, r)), patterns=[A.elem(0, j)])))
+            return r
+        return pam(I, a, axis=axis, **kw)
+    np_.argmin = argmin_
+    pax = np_.argmax
+    def argmax_(I, a, axis=None, **kw):
+        A = I.A(a)
+        if A.ndim == 2 and axis is None and conc(A.shape[0]) == 1:
+            npstubs.used('np.argmax of a 1 x g array (first maximum)')
+            g = tz(A.shape[1]); r = I.fresh('argmax', IntS); j = Int('j!ax')
+            I.ob('pre:np.argmax:non-empty', g >= 1, kind='pre')
+            I.assume(And(0 <= r, r < g, ForAll([j], Implies(And(0 <= j, j < g), A.elem(0, r) >= A.elem(0, j)), patterns=[A.elem(0, j)])))
+            return r
+        return pax(I, a, axis=axis, **kw)
+    np_.argmax = argmax_
+
+def u_assigner(weighted):
+    q = NG + '.predict'
+    def lam_int(A): return z3.Lambda([t_], A.elem(t_))
+    def lam_real(A): return z3.Lambda([t_], to_real(A.elem(t_)))
+    def inv(I, F, i, gh):
+        c = I.cur; o = I.O(F['self']); g = c['g']
+        Lst = o.attrs['labels_']
+        L = I.A(Lst) if isinstance(Lst, ArrRef) else None
+        W = I.A(F['sample_weight']); npnt = I.A(o.attrs['grid_npoints']); gw = I.A(o.attrs['grid_weight'])
+        if L is None:      # before the first iteration the list is the empty python list
+            return [('[C17]one-count-and-one-weight-per-grid-point', And(tz(npnt.shape[0]) == g, tz(gw.shape[0]) == g)),
+                    ('[C17]labels-so-far', BoolVal(isinstance(Lst, list) and len(Lst) == 0 and z3.is_int_value(z3.simplify(tz(i))) and z3.simplify(tz(i)).as_long() == 0) if not is_sym(conc(i)) else BoolVal(False)),
+                    ('[C17]grid-counts-are-the-numbers-of-assigned-descriptors', ForAll([j_], Implies(And(0 <= j_, j_ < g), npnt.elem(j_) == 0))),
+                    ('[C17]grid-weights-are-the-sums-of-the-assigned-descriptor-weights', ForAll([j_], Implies(And(0 <= j_, j_ < g), gw.elem(j_) == 0)))]
+        LL, WW = lam_int(L), lam_real(W)
+        return [('[C17]one-label-per-descriptor-seen', tz(L.shape[0]) == i),
+                ('[C17]one-count-and-one-weight-per-grid-point', And(tz(npnt.shape[0]) == g, tz(gw.shape[0]) == g)),
+                ('[C17]every-label-is-a-grid-point-nearest-to-its-descriptor', ForAll([t_, j_], Implies(And(0 <= t_, t_ < i, 0 <= j_, j_ < g), And(0 <= L.elem(t_), L.elem(t_) < g, DIST(t_, L.elem(t_)) <= DIST(t_, j_))), patterns=[z3.MultiPattern(L.elem(t_), DIST(t_, j_))])),
+                ('[C17]grid-counts-are-the-numbers-of-assigned-descriptors', ForAll([j_], Implies(And(0 <= j_, j_ < g), npnt.elem(j_) == CNTSEL(LL, i, j_)), patterns=[npnt.elem(j_)])),
+                ('[C17]grid-weights-are-the-sums-of-the-assigned-descriptor-weights', ForAll([j_], Implies(And(0 <= j_, j_ < g), gw.elem(j_) == SUMSEL(LL, WW, i, j_)), patterns=[gw.elem(j_)]))]
+    def body(I):
+        n, g, d = I.fresh('n', IntS), I.fresh('g', IntS), I.fresh('d', IntS); I.assume(And(n >= 1, g >= 1, d >= 1))
+        I.use_axioms('sel', sel_axioms())
+        I.cur = dict(g=g, n=n)
+        X = I.fresh_arr('descriptors', (n, d)); G = I.fresh_arr('grid', (g, d)); w = I.fresh_arr('w', (n,))
+        Xf = I.A(X).tag[1] if I.A(X).tag and I.A(X).tag[0] == 'base' else None
+        def metric(I2, P, Gq, **kw):
+            # squared distance of ONE descriptor (a 1 x d row of the descriptor matrix) to every grid point
+            A = I2.A(P)
+            c0 = Int('c!probe'); term = z3.simplify(A.elem(IntVal(0), c0))
+            if not (z3.is_app(term) and term.num_args() == 2 and Gq.id == G.id): raise Unsupported("metric called on something else than one descriptor row and the grid")
+            row = term.arg(0)
+            I2.cur.setdefault('metric_rows', []).append(row)
+            return I2.new_arr(ArrVal((1, I2.A(Gq).shape[0]), lambda a, b: DIST(row, tz(b)), RealS))
+        cls = I.repo.get(NG)
+        me = I.instantiate(cls, [metric, None, False], {})
+        I.call_func(I.find_method(cls, 'fit'), [me, G], {})
+        o = I.O(me)
+        I.ob('post[C17]:fit-stores-the-grid-and-zeroes-counts-and-weights', And(BoolVal(o.attrs['grid_pos'].id == G.id), tz(I.A(o.attrs['grid_npoints']).shape[0]) == g, tz(I.A(o.attrs['grid_weight']).shape[0]) == g), kind='post')
+        r = I.call_func(I.find_method(cls, 'predict'), [me, X], dict(sample_weight=w) if weighted else {})
+        o = I.O(me)
+        L = I.A(r); W = I.A(w)
+        I.ob('post[C17]:returns-the-label-list', BoolVal(isinstance(r, ArrRef) and r.id == o.attrs['labels_'].id), kind='post')
+        t, j = I.fresh('t', IntS), I.fresh('j', IntS); I.assume(And(0 <= t, t < n, 0 <= j, j < g))
+        I.ob('post[C17]:one-label-per-descriptor', tz(L.shape[0]) == n, kind='post')
+        I.ob('post[C17]:each-descriptor-is-assigned-to-a-nearest-grid-point', And(0 <= L.elem(t), L.elem(t) < g, DIST(t, L.elem(t)) <= DIST(t, j)), kind='post')
+        if weighted:
+            LL, WW = lam_int(L), lam_real(W)
+            I.ob('post[C17]:grid-weights-are-the-sums-of-the-assigned-descriptor-weights', I.A(o.attrs['grid_weight']).elem(j) == SUMSEL(LL, WW, n, j), kind='post')
+            I.ob('post[C17]:grid-counts-are-the-numbers-of-assigned-descriptors', I.A(o.attrs['grid_npoints']).elem(j) == CNTSEL(LL, n, j), kind='post')
+    return Unit(f'_NearestGridAssigner[{"weights" if weighted else "uniform"}]', body, loops={(q, 0): LoopContract(inv)}, functions=[NG + '.fit', NG + '.predict'])
+
+UNITS = [lambda: u_assigner(True), lambda: u_assigner(False), lambda: u_fit(True, True), lambda: u_fit(False, False), lambda: u_fit(False, True), lambda: u_score(), lambda: u_reject()]
 RT = True
 EVIDENCE_LEVEL = 'exploration'
 TRUSTED = ["the property as a whole is bounded: independent numpy oracle (mixture recomputed from the fitted state, brute-force nearest-grid assignment and weight sums)",
